@@ -2,6 +2,7 @@
    edge-triggered epoll ready list with concurrent senders; scheduler = arbitrary label list). *)
 From Coq Require Import List Arith Bool ZArith.
 From IPC Require Import U64 Params RSet RSetProofs.
+From IPC Require K Prog Ideal Api ApiProofs ApiInv.
 Import ListNotations.
 
 (* the batch capacity of the model is the one in the source (GENERATED constant) *)
@@ -60,3 +61,32 @@ Example C06_ex :
      | Some s => Some s | None => None end)
   = Some (12%nat, []).
 Proof. vm_compute. reflexivity. Qed.
+
+(* ---- the public IpcReceiverSet inside whole-API programs (model: Api.v; proofs: ApiInv.v) ---- *)
+Module ApiLevel.
+Import K Prog Ideal Api ApiProofs ApiInv.
+Local Open Scope nat_scope.
+
+(* serving one member of a set: every queued message is reported exactly once, in queue order, tagged with the member's index
+   (an undecodable one as such, its attachments released later), and the closure is reported - last - exactly when no
+   reference to the sending end exists anywhere (held by the process or in flight in a live queue) *)
+Theorem C06_api_member_events : forall fuel k hs n i c, k_wf k -> length (q (get_chan k c)) < fuel ->
+  match drain fuel k hs n i c with
+  | (_, _, _, evs, closed, _) =>
+      map proj_ev evs = map (msg_ev i) (q (get_chan k c)) ++ (if closed then [PClosed i] else []) /\
+      closed = (refs k (RS c) =? 0)
+  end.
+Proof. exact drain_events. Qed.
+Print Assumptions C06_api_member_events.
+
+(* the id `add` returns is the member's index; serving the set never renumbers the members *)
+Theorem C06_api_ids_stable : forall ms k hs n i,
+  match select_all k hs n i ms with (_, _, _, _, ms2, _) => length ms2 = length ms end.
+Proof. exact select_all_length. Qed.
+Print Assumptions C06_api_ids_stable.
+Theorem C06_api_add_fresh : forall s sh rh ms c,
+  lookup (ah s) sh = Some (OSet ms) -> lookup (ah s) rh = Some (OR c) ->
+  snd (a_step s (ASetAdd sh rh)) = QAdded (length ms).
+Proof. exact add_returns_fresh_index. Qed.
+Print Assumptions C06_api_add_fresh.
+End ApiLevel.
